@@ -728,11 +728,11 @@ func (w *Writer) OpenStream(ref Reference, dict Dict, filters ...Filter) (io.Wri
 		leadingCrypt = cf
 	}
 
-	err := w.setXRef(ref, &xRefEntry{Pos: w.w.pos, Generation: ref.Generation()})
-	if err != nil {
-		return nil, fmt.Errorf("Writer.OpenStream: %w", err)
+	// The xref entry is registered only once nothing can fail any more, so
+	// that a refused call does not leave an entry pointing at the next object.
+	if _, seen := w.xref[ref.Number()]; seen {
+		return nil, fmt.Errorf("Writer.OpenStream: %w", errDuplicateRef)
 	}
-	w.w.ref = ref
 
 	// Copy dict so that we don't modify the caller's dict, and inline any
 	// indirect /Filter or /DecodeParms entries.  Inlining serves two
@@ -800,6 +800,7 @@ func (w *Writer) OpenStream(ref Reference, dict Dict, filters ...Filter) (io.Wri
 	}
 
 	for _, filter := range filters {
+		var err error
 		streamBody, err = filter.Encode(w.meta.Version, streamBody)
 		if err != nil {
 			return nil, err
@@ -811,6 +812,12 @@ func (w *Writer) OpenStream(ref Reference, dict Dict, filters ...Filter) (io.Wri
 		}
 		appendFilter(streamDict, name, parms)
 	}
+
+	err := w.setXRef(ref, &xRefEntry{Pos: w.w.pos, Generation: ref.Generation()})
+	if err != nil {
+		return nil, fmt.Errorf("Writer.OpenStream: %w", err)
+	}
+	w.w.ref = ref
 
 	w.inStream = true
 	return streamBody, nil
